@@ -139,6 +139,14 @@ impl World {
         out
     }
 
+    /// as `auth_step`, a panic inside kanidm becomes the result class "panic"
+    pub async fn auth_step_nopanic(&self, step: AuthEventStep, ct: Duration) -> StepOut {
+        match std::panic::AssertUnwindSafe(self.auth_step(step, ct)).catch_unwind().await {
+            Ok(o) => o,
+            Err(_) => StepOut { class: "panic".into(), detail: vec![], sessionid: None, token: None },
+        }
+    }
+
     pub fn init_step(name: &str, privileged: bool) -> AuthEventStep {
         AuthEventStep::Init(AuthEventStepInit { username: name.to_string(), issue: AuthIssueSession::Token, privileged })
     }
